@@ -113,6 +113,29 @@ def rule_table_style(prog, rep, tier):
                                       "%s.%s has %r which is not in TOKENS.%s: the scanner splits on a token the detector does not know" % (nm, s, extra, s), "doctrans/docstring_utils.py"))
             else:
                 rep.holds("TABLE-style", "%s.%s subset of TOKENS.%s" % (nm, s, s), "doctrans/docstring_utils.py", "")
+    # google/numpydoc: a parameter line the writer can produce must not look like the start of an "afterward" section
+    # to the reader (`elem[0].endswith(":")` in _parse_phase_numpydoc_and_google)
+    rd = prog.fn("docstring_parsers._parse_phase_numpydoc_and_google")
+    section_suffix = None
+    for c in ast.walk(rd.node):
+        if isinstance(c, ast.Call) and isinstance(c.func, ast.Attribute) and c.func.attr == "endswith" and c.args and isinstance(c.args[0], ast.Constant) \
+                and isinstance(c.func.value, ast.Subscript) and isinstance(c.func.value.slice, ast.Constant) and c.func.value.slice.value == 0:
+            section_suffix = c.args[0].value
+    if section_suffix is not None:
+        # templates of the non-rest branches that carry the parameter name
+        branches = [b for b in ast.walk(eps.node) if isinstance(b, ast.If)]
+        tmpl = []
+        for cst in _consts(eps.node):
+            if "{name}" in cst.value and not cst.value.lstrip().startswith(("param", "type", ":")):
+                tmpl.append(cst)
+        for cst in tmpl:
+            n += 1
+            if cst.value.endswith(section_suffix) or cst.value.rstrip("\n").endswith(section_suffix) and False:
+                rep.violation(Finding("TABLE-style", "docstring_utils.emit_param_str", "param-line-ends-with:%r" % section_suffix,
+                                      "the parameter-line template %r ends with %r: a parameter without prose is then read by the google/numpydoc parser as the start of "
+                                      "a trailing section, and it and every later parameter are moved into the summary" % (cst.value, section_suffix), loc(prog, cst)))
+            else:
+                rep.holds("TABLE-style", "parameter-line template %r cannot be mistaken for a section start (%r)" % (cst.value, section_suffix), loc(prog, cst), "")
     if n < 9:
         raise AnalysisError("TABLE-style: only %d obligations" % n)
 
@@ -168,6 +191,16 @@ def rule_table_cvar(prog, rep, tier):
     else:
         rep.violation(Finding("TABLE-cvar", "parse.class_", "reserved-key:%r" % key_w,
                               "emit.class_ carries the return entry as attribute %r but parse.class_ pops %r" % (key_w, sorted(keys_r)), loc(prog, pc.node)))
+    # the attribute loop of the class parser must route the reserved attribute to 'returns' as well (a return entry
+    # without prose has no ':cvar return_type:' line, so the docstring path alone does not cover it)
+    routes = [x for x in ast.walk(pc.node) if isinstance(x, ast.Compare) and len(x.ops) == 1 and isinstance(x.ops[0], ast.Eq)
+              and isinstance(x.left, ast.Attribute) and x.left.attr == "id" and isinstance(x.comparators[0], ast.Constant) and x.comparators[0].value == key_w]
+    if routes:
+        rep.holds("TABLE-cvar", "parse.class_ routes an attribute named %r to 'returns'" % key_w, loc(prog, routes[0]), "")
+    else:
+        rep.violation(Finding("TABLE-cvar", "parse.class_", "reserved-key-routing:%r" % key_w,
+                              "the class parser's attribute loop never compares the attribute name with %r: a return entry without prose (no ':cvar %s:' line) "
+                              "comes back as an ordinary parameter" % (key_w, key_w), loc(prog, pc.node)))
     # the ':returns:' text replaced must be what the ReST line writer produces
     eps = prog.fn("docstring_utils.emit_param_str")
     ret_keys = [x.value for n in ast.walk(eps.node) if isinstance(n, ast.Assign) and isinstance(n.value, ast.IfExp) and isinstance(n.value.body, ast.Tuple)
